@@ -1,0 +1,12 @@
+// Copyright (C) 2024, Ava Labs, Inc. All rights reserved.
+// See the file LICENSE for licensing terms.
+
+//go:build !verif
+
+// Package verifhook provides named observation points for fault-injection
+// tests of the accept pipeline. It is only active in binaries built with the
+// build tag "verif"; otherwise Point is an empty function.
+package verifhook
+
+// Point is a no-op unless the binary is built with the build tag "verif".
+func Point(string, uint64) {}
